@@ -15,7 +15,7 @@ namespace PV.Driver.UThread
 open PV.UThread
 open PV.Generated.UThread
 namespace Sp
-export PV.UThreadSpec (S Out create spawn ref drop current exit join threadEnd keyNew setLocal replaceLocal sortD)
+export PV.UThreadSpec (S Out create spawn ref drop current exit join threadEnd keyNew keyFree setLocal replaceLocal sortD)
 end Sp
 
 structure Pend where
@@ -47,7 +47,8 @@ def nativeOf (raced : List Nat) (s : State) (e : Ev) (s' : State) : List String 
   let sh := showN raced s'
   let lib (t : Nat) : List String :=     -- p_uthread_current: getspecific (+ setspecific of a fresh handle)
     match (s.key 0).published with
-    | some n => ["gs" ++ sh n] ++ (if s.tls t n = 0 then ["ss" ++ sh n ++ ":H"] else [])
+    | some n => ["gs" ++ sh n] ++
+        (if s.tls t n = 0 then ["ss" ++ sh n ++ ":H"] ++ (if currentChecksStore then ["gs" ++ sh n] else []) else [])
     | none => []
   match e with
   | .keyCreate _ _ => ["kc" ++ sh s.nN]
@@ -67,9 +68,13 @@ def nativeOf (raced : List Nat) (s : State) (e : Ev) (s' : State) : List String 
     match (s.key k).published with
     | some n => ["gs" ++ sh n]
     | none => []
-  | .start _ =>
+  | .start _ =>     -- proxy: setspecific, and (repaired code) the read-back `is_stored`
     match (s.key 0).published with
-    | some n => ["ss" ++ sh n ++ ":H"]
+    | some n => ["ss" ++ sh n ++ ":H"] ++ (if proxyReadsBack then ["gs" ++ sh n] else [])
+    | none => []
+  | .localFree _ k =>
+    match (s.key k).published with
+    | some n => if localFreeDeletesKey then ["kd" ++ showN raced s n] else []
     | none => []
   | .current t => lib t
   | .exit t _ => lib t
@@ -237,7 +242,7 @@ def step (s : St) (toks : List String) : IO (St × Bool) := do
         | some k =>
           -- freeing a key while a thread is parked inside a call on it is a misuse of the TLS API (refused)
           if s.pend.any (·.k = k) then bad else
-          fin (runEvs (raced := s.raced) m [.localFree a k]) (fun _ _ => "-") s.sp {} "-"
+          fin (runEvs (raced := s.raced) m [.localFree a k]) (fun _ _ => "-") (Sp.keyFree s.sp k) {} "-"
         | none => bad
       | ["kbegin", what, k, v] =>
         match k.toNat?, v.toNat? with
